@@ -403,43 +403,50 @@ bool Component::hasReset(const ResetPtr &reset) const
 
 ComponentPtr Component::clone() const
 {
-    auto c = create();
+    ImportSourceMap importSourceMap;
 
-    c->setId(id());
-    c->setName(name());
-    c->setEncapsulationId(encapsulationId());
-    c->setMath(math());
+    return pFunc()->clone(importSourceMap);
+}
 
-    if (isImport()) {
-        c->setImportSource(importSource());
+ComponentPtr Component::ComponentImpl::clone(ImportSourceMap &importSourceMap) const
+{
+    auto c = Component::create();
+
+    c->setId(mComponent->id());
+    c->setName(mComponent->name());
+    c->setEncapsulationId(mComponent->encapsulationId());
+    c->setMath(mComponent->math());
+
+    if (mComponent->isImport()) {
+        c->setImportSource(clonedImportSource(mComponent->importSource(), importSourceMap));
     }
 
-    c->setImportReference(importReference());
+    c->setImportReference(mComponent->importReference());
 
-    for (size_t index = 0; index < variableCount(); ++index) {
-        auto v = variable(index);
+    for (size_t index = 0; index < mComponent->variableCount(); ++index) {
+        auto v = mComponent->variable(index);
         c->addVariable(v->clone());
     }
 
-    for (size_t index = 0; index < resetCount(); ++index) {
-        auto r = reset(index);
+    for (size_t index = 0; index < mComponent->resetCount(); ++index) {
+        auto r = mComponent->reset(index);
         auto rClone = r->clone();
         c->addReset(rClone);
-        size_t variableIndex = indexOf(r->variable(), shared_from_this());
-        if (variableIndex < variableCount()) {
+        size_t variableIndex = indexOf(r->variable(), mComponent->shared_from_this());
+        if (variableIndex < mComponent->variableCount()) {
             auto v = c->variable(variableIndex);
             rClone->setVariable(v);
         }
-        size_t testVariableIndex = indexOf(r->testVariable(), shared_from_this());
-        if (testVariableIndex < variableCount()) {
+        size_t testVariableIndex = indexOf(r->testVariable(), mComponent->shared_from_this());
+        if (testVariableIndex < mComponent->variableCount()) {
             auto v = c->variable(testVariableIndex);
             rClone->setTestVariable(v);
         }
     }
 
-    for (size_t index = 0; index < componentCount(); ++index) {
-        auto cChild = component(index);
-        c->addComponent(cChild->clone());
+    for (size_t index = 0; index < mComponent->componentCount(); ++index) {
+        auto cChild = mComponent->component(index);
+        c->addComponent(cChild->pFunc()->clone(importSourceMap));
     }
 
     return c;
